@@ -111,15 +111,26 @@ BACKEND = {"cc3d": CCABackend.cc3d, "scipy": CCABackend.scipy, None: None}
 def mk_groups(groups):
     if groups is None:
         return None
-    d = {}
+    d, mine = {}, []
     for g in groups:
         cls = LabelMergeGroup if g["merge"] else LabelGroup
-        d[g["name"]] = cls(list(g["labels"]), single_instance=g["single"])
+        lst = list(g["labels"])
+        mine.append(lst)
+        d[g["name"]] = cls(lst, single_instance=g["single"])
     if groups and groups[0].get("as_list"):
         # groups given as a list: the library names them group_0, group_1, ... (the spec carries exactly these names)
         assert [g["name"] for g in groups] == [f"group_{k}" for k in range(len(groups))]
-        return SegmentationClassGroups(list(d.values()))
-    return SegmentationClassGroups(d)
+        out = SegmentationClassGroups(list(d.values()))
+    else:
+        out = SegmentationClassGroups(d)
+    if groups and groups[0].get("mutate_after"):
+        # the caller goes on using its own lists (a running bookkeeping list, a reused buffer): the groups are what was
+        # defined, not what those lists hold later
+        snap = [list(l) for l in mine]
+        for k, lst in enumerate(mine):
+            lst.extend(snap[(k + 1) % len(snap)])
+            lst.append(max([0] + [x for l2 in snap for x in l2]) + 1)
+    return out
 
 
 def mk_evaluator(cfg: dict, groups=None, global_metrics=(), **kw) -> Panoptica_Evaluator:
